@@ -227,7 +227,9 @@ where
         .steps_iter()
         // Note that steps_iter() yields interval lengths, but we are interested in
         // offsets. Since the length of an interval [0, A] is A+1, we need to subtract one
-        // to obtain the offset.
+        // to obtain the offset. An interval of length zero contains no offset, so
+        // a zero-length "step" (as reported by some arrival models) is skipped.
+        .filter(|delta| delta.is_non_zero())
         .map(Offset::closed_from_time_zero)
         .take_while(|x| *x <= Offset::from_time_zero(max_bw));
     // for each relevant offset in the search space,
